@@ -423,6 +423,21 @@ def rule_munge(model):
         r.finding(fi.where, 'initvars(...)', 'munge no longer '
                   're-initialises the defaults', node=fi.node, ctx=fi)
         return r
+    # the same routine as the constructor, with the arguments as given:
+    # which of mapping / keyword default wins a name is decided there
+    # (C02.R2) and must not be pre-empted by merging them here
+    for c in calls:
+        got = [norm(a) for a in c.args[:2]]
+        ok_a = got == [mp, kw]
+        r.instance(fi.where, c, 'arguments handed on as given' if ok_a
+                   else 'ARGUMENTS REWRITTEN')
+        if not ok_a:
+            r.finding(fi.where, c, f'munge() hands initvars({", ".join(got)}) '
+                      f'instead of ({mp}, {kw}): mapping and keyword '
+                      'defaults are merged before the routine that decides '
+                      'their precedence sees them, so an edited template '
+                      'and a new one built with the same arguments resolve '
+                      'a name given in both differently', node=c, ctx=fi)
     scenarios = [({mp: 'empty', kw: 'empty'}, 'an empty mapping'),
                  ({mp: 'given', kw: 'empty'}, 'a mapping'),
                  ({mp: 'none', kw: 'given'}, 'keyword defaults only')]
@@ -462,6 +477,46 @@ def rule_munge(model):
             elif verdict is None:
                 raise AnalysisError('munge: guard of initvars not '
                                     f'understood ({norm(guards[0][0])})')
+    # ... and the new source is taken over whenever one is given, the empty
+    # text included (an edit to '' must not leave the old text in place)
+    src = next((p for p in ps if p not in ('self', mp)), None)
+    stores = [x for x in own_nodes(fi.node) if isinstance(x, ast.Assign)
+              and isinstance(x.value, ast.Name) and x.value.id == src
+              and any(isinstance(t, ast.Attribute) and
+                      norm(t.value) == 'self' for t in x.targets)]
+    if src is None or not stores:
+        raise AnalysisError('munge: the store of the new source was not '
+                            'found')
+    for x in stores:
+        guards = []
+        child = x
+        for a in ancestors(x):
+            if a is fi.node:
+                break
+            if isinstance(a, ast.If):
+                guards.append((a.test, any(
+                    child is b_ or any(child is y for y in ast.walk(b_))
+                    for b_ in a.body)))
+            child = a
+        verdict = True
+        for t, pos in guards:
+            v = _truth3(t, {src: 'empty'})
+            if v is None:
+                verdict = None
+                break
+            if v != pos:
+                verdict = False
+                break
+        r.instance(fi.where, "munge called with the source ''",
+                   {True: 'source replaced', False: 'OLD SOURCE KEPT',
+                    None: 'undecided'}[verdict])
+        if verdict is False:
+            r.finding(fi.where, guards[0][0], 'munge() / manage_edit() '
+                      "called with the empty text '' keeps the old source "
+                      '(the guard tests the truth value of the new source, '
+                      'not whether one was given): the edited template '
+                      'still renders, reads back and pickles the old text',
+                      node=x, ctx=fi)
     return r
 
 
